@@ -38,7 +38,16 @@ var big = func() []byte {
 	return b
 }()
 
-var values = map[string][]byte{"x": []byte("x"), "y": []byte("y"), "big": big, "empty": {}, "zeros": make([]byte, 40)}
+// big2: the same length as big, also incompressible, different bytes (a batch of two such values)
+var big2 = func() []byte {
+	b := make([]byte, len(big))
+	for i := range b {
+		b[i] = big[len(big)-1-i] ^ 0x5a
+	}
+	return b
+}()
+
+var values = map[string][]byte{"x": []byte("x"), "y": []byte("y"), "big": big, "big2": big2, "empty": {}, "zeros": make([]byte, 40)}
 
 type op struct {
 	kind string // set add setasync setmulti get delete advance
@@ -85,6 +94,8 @@ func alphabet(clients int) []op {
 				op{kind: "setasync", keys: []string{"1@a"}, vals: []string{"x"}, ttl: 5 * time.Second},
 				op{kind: "setmulti", keys: []string{"a", "1@a"}, vals: []string{"x", "y"}, ttl: 5 * time.Second},
 				op{kind: "setmulti", keys: []string{"a"}, vals: []string{"big"}, ttl: time.Second},
+				// one batch carrying two incompressible values of the same length (whatever the order the wrapper walks the batch in)
+				op{kind: "setmulti", keys: []string{"a", "1@a"}, vals: []string{"big", "big2"}, ttl: 5 * time.Second},
 				// a TTL of zero: the entry is expired as soon as it is stored (it must still supersede what was there)
 				op{kind: "set", keys: []string{"a"}, vals: []string{"y"}, ttl: 0},
 				op{kind: "setasync", keys: []string{"a"}, vals: []string{"x"}, ttl: 0})
@@ -308,7 +319,7 @@ func TestC19Wrappers(t *testing.T) {
 	}
 	cfgs := stacks()
 	a1, a2, a3 := alphabet(1), alphabet(2), alphabetPrepop()
-	rep.Bound = fmt.Sprintf("%d stack configurations (every ordering of every non-empty subset of {in-memory LRU (size 1 and 2, default retention 3s), versioned, snappy} over the in-process backend, plus two clients with versions 1 and 11 sharing one backend, plus stacks whose backend was pre-populated by another process running the same stack — those one step deeper over a 12-operation alphabet); every operation sequence of length <= %d (thorough: that depth for the stacks of an in-memory layer with at most one more wrapper, one less for the others) over %d operations (%d for the shared configuration): set/add/async/multi sets with values {x, y, 40 incompressible bytes, empty, 40 zero bytes} and TTL 0/1s/5s on keys {a, \"1@a\"}, get-multi, delete, clock advance 2/4/6 s", len(cfgs), depth, len(a1), len(a2))
+	rep.Bound = fmt.Sprintf("%d stack configurations (every ordering of every non-empty subset of {in-memory LRU (size 1 and 2, default retention 3s), versioned, snappy} over the in-process backend, plus two clients with versions 1 and 11 sharing one backend, plus stacks whose backend was pre-populated by another process running the same stack — those one step deeper over a 12-operation alphabet); every operation sequence of length <= %d (thorough: that depth for the stacks of an in-memory layer with at most one more wrapper, one less for the others) over %d operations (%d for the shared configuration): set/add/async/multi sets with values {x, y, two different 40-byte incompressible values (also in one batch), empty, 40 zero bytes} and TTL 0/1s/5s on keys {a, \"1@a\"}, get-multi, delete, clock advance 2/4/6 s", len(cfgs), depth, len(a1), len(a2))
 	rep.Rule = "each sequence replayed on a fresh real stack (virtual clock for the in-memory layer, Advance for the backend) against a map-with-expiry reference: a read returns only requested keys, only the most recently stored value of that client/version byte for byte, never after deletion, never beyond TTL (+ in-memory retention); Add fails iff the backend holds an unexpired entry; distinct_nontrivial = sequences with at least one cache hit"
 	deadline := ev.Deadline(8 * time.Minute)
 	type job struct {
